@@ -1,18 +1,18 @@
 SPECIFICATION Spec
 CONSTANTS
-  NU = 3
-  NE = 2
-  HexUsers = {1, 2}
+  NU = 2
+  NE = 1
+  HexUsers = {1}
   NSpell = 1
   MinerExecs = {1}
-  Amts = {1, 9, 10}
-  GenAmts = {5, 899}
+  Amts = {9, 10}
+  GenAmts = {5}
   OpLimit = 10
   BalLimit = 900
   IntMax = 922
-  Inits <- MCInits
+  Inits <- MCInitsD
   Ops <- AllOps
-  MaxOps = 3
+  MaxOps = 6
   EmitOn = FALSE
 VIEW view
 INVARIANTS TypeOK NonNeg NoOverflow SupplyOK ExecIdentity
